@@ -311,8 +311,8 @@ def item_chunk_arrays(repo, out):
     if ba != bb:
         raise TranslateError('%s: the two shapes are sliced differently (%s vs %s)' % (what, ba, bb))
     lo, hi = ba
-    out.append('Definition uci_lo : nat := %d.' % lo)
-    out.append('Definition uci_hi : option nat := %s.' % ('None' if hi is None else 'Some %d' % hi))
+    out.append('Definition uci_lo : nat := %d%%nat.' % lo)
+    out.append('Definition uci_hi : option nat := %s.' % ('None' if hi is None else 'Some %d%%nat' % hi))
     out.append('Definition uci_refuses (same : bool) : bool := %s.   (* %s *)'
                % ('negb same' if isinstance(test.ops[0], ast.NotEq) else 'same', ast.unparse(test)))
     # _align_chunk_info
